@@ -151,8 +151,11 @@ enum A {
     CloneBurst,
     /// many try_sends in a row (long queues: growth / wrap-around / batch limits), then observe
     SendBurst,
+    /// `clone_from` a handle of this channel into a handle of a fresh second channel: the old
+    /// channel must lose that handle, this one gains it
+    CloneFrom,
 }
-const ALPHA: [(A, u32); 29] = [
+const ALPHA: [(A, u32); 30] = [
     (A::Send, 5),
     (A::SendTimeout0, 3),
     (A::SendOptTimeout0, 3),
@@ -182,6 +185,7 @@ const ALPHA: [(A, u32); 29] = [
     (A::TrySendOptNone, 1),
     (A::CloneBurst, 1),
     (A::SendBurst, 1),
+    (A::CloneFrom, 1),
 ];
 fn pick_a(b: u8) -> A {
     pick_a_masked(b, 0)
@@ -1071,6 +1075,45 @@ impl<const N: usize> World<N> {
                 self.observe(hi);
                 self.flags.insert("send_burst");
             }
+            A::CloneFrom => {
+                let Some(hi) = self.pick(None, b1) else { return };
+                self.trace.push(format!("CloneFrom(h{})", hi));
+                let h = self.hs[hi].as_ref().unwrap();
+                // (other channel's observer of the side that loses its handle, new handle of this channel)
+                let (other_count, other_disc, n): (u32, bool, H<P<N>>) = match h {
+                    H::S(src) => {
+                        let (mut s2, r2) = bounded::<P<N>>(1);
+                        s2.clone_from(src);
+                        (r2.sender_count(), r2.is_disconnected(), H::S(Box::new(s2)))
+                    }
+                    H::AS(src) => {
+                        let (mut s2, r2) = bounded_async::<P<N>>(1);
+                        s2.clone_from(src);
+                        (r2.sender_count(), r2.is_disconnected(), H::AS(Box::new(s2)))
+                    }
+                    H::R(src) => {
+                        let (s2, mut r2) = bounded::<P<N>>(1);
+                        r2.clone_from(src);
+                        (s2.receiver_count(), s2.is_disconnected(), H::R(Box::new(r2)))
+                    }
+                    H::AR(src) => {
+                        let (s2, mut r2) = bounded_async::<P<N>>(1);
+                        r2.clone_from(src);
+                        (s2.receiver_count(), s2.is_disconnected(), H::AR(Box::new(r2)))
+                    }
+                };
+                if other_count != 0 || !other_disc {
+                    self.fail(
+                        "count_mismatch",
+                        format!("after clone_from the abandoned channel still counts {} handle(s) of that side (disconnected: {})", other_count, other_disc),
+                    );
+                }
+                self.m.clone_side(n.is_send());
+                self.hs.push(Some(n));
+                self.live_handles += 1;
+                self.observe(hi);
+                self.flags.insert("cross_clone");
+            }
             A::CloneBurst => {
                 let Some(hi) = self.pick(None, b1) else { return };
                 self.trace.push(format!("CloneBurst(h{})", hi));
@@ -1308,7 +1351,7 @@ fn run_world<const N: usize>(case: &SCase, caps: &[Option<usize>]) -> (World<N>,
         viol: Vec::new(),
         live_handles: 2,
         in_queue_at_end: false,
-        mask: u32::from_le_bytes([case.cfg[3], case.cfg[4], case.cfg[5], case.cfg[6]]) & ((1 << 29) - 1),
+        mask: u32::from_le_bytes([case.cfg[3], case.cfg[4], case.cfg[5], case.cfg[6]]) & ((1 << 30) - 1),
     };
     let mut panicked = false;
     for op in case.ops.iter() {
@@ -1383,7 +1426,20 @@ fn preds_for(prop: &str) -> Option<&'static [&'static str]> {
             "wrong_value",
             "corrupt_value",
         ]),
-        "C12" => Some(&["count_mismatch"]),
+        "C12" => Some(&["count_mismatch", "unexpected_panic"]),
+        // single-thread part of exactly-once: every value out once, the right one, nothing invented
+        "C01" => Some(&[
+            "dup_recv",
+            "wrong_value",
+            "corrupt_value",
+            "drain_mismatch",
+            "double_fate",
+            "destroyed_set_mismatch",
+            "double_drop",
+            "unexpected_panic",
+        ]),
+        // single-thread part of capacity: refusals / acceptance and len / is_full exactly as the model
+        "C08" => Some(&["result_mismatch", "observer_mismatch", "unexpected_panic"]),
         _ => Some(&[]),
     }
 }
@@ -1401,6 +1457,8 @@ fn nontrivial(prop: &str, flags: &BTreeSet<&'static str>) -> bool {
         }
         "C16" => has("spurious_poll") || has("waker_change") || has("stream_second_wait"),
         "C12" => (has("cross_clone") || has("convert")) && has("drop_out_of_order"),
+        "C01" => has("drain_took_pending_sender") || has("send_burst") || has("registered_future"),
+        "C08" => has("send_on_full") || has("send_burst"),
         _ => true,
     }
 }
@@ -1450,7 +1508,7 @@ pub fn run_case(prop: &str, case: &SCase, tier_caps: &[Option<usize>]) -> CaseOu
         "payload_bytes": if large { 24 } else if size_class == 1 { 8 } else { 4 },
         "history": trace,
         "flags": flags.iter().collect::<Vec<_>>(),
-        "swarm_mask": format!("{:07x}", u32::from_le_bytes([case.cfg[3], case.cfg[4], case.cfg[5], case.cfg[6]]) & ((1 << 29) - 1)),
+        "swarm_mask": format!("{:07x}", u32::from_le_bytes([case.cfg[3], case.cfg[4], case.cfg[5], case.cfg[6]]) & ((1 << 30) - 1)),
     });
     co
 }
@@ -1502,8 +1560,10 @@ impl Engine for SeqEng {
 
 pub fn rule_text(prop: &str) -> &'static str {
     match prop {
-        "C18" => "single-thread histories over the full API alphabet (29 call kinds incl. futures, stream, conversions, zero-duration timed calls, observers) executed in lock-step against the reference model on the unhooked crate; random histories up to 60-80 calls; non-trivial = a future/stream registered in the waiting list and then a cancel, close or disconnect happened; distinct = hash(capacity, constructor, payload size, executed call sequence)",
+        "C18" => "single-thread histories over the full API alphabet (30 call kinds incl. futures, stream, conversions, zero-duration timed calls, observers) executed in lock-step against the reference model on the unhooked crate; random histories up to 60-80 calls; non-trivial = a future/stream registered in the waiting list and then a cancel, close or disconnect happened; distinct = hash(capacity, constructor, payload size, executed call sequence)",
         "C16" => "single-thread poll scripts: every poll's result, every waker's wake count and every value checked against the model; non-trivial = history contains a spurious poll of a registered future, a waker change, or a second wait on one stream; distinct = hash(config, executed call sequence)",
+        "C01" => "single-thread histories (incl. bursts of 40 / 1100 sends and drains) in lock-step with the reference model: every value comes out exactly once, the expected one; the set of values destroyed by the library equals the model's after every call; non-trivial = a drain took a pending sender, a send burst, or a registered future; distinct = hash(config, executed call sequence)",
+        "C08" => "single-thread histories in lock-step with the reference model: every send-like call is accepted / refused / blocked exactly as the model's capacity rule says (incl. bursts of 1100 try_sends on every capacity), len / is_full / capacity as the model; non-trivial = a send met a full buffer or a burst was sent; distinct = hash(config, executed call sequence)",
         "C12" => "single-thread clone/convert/drop/close histories with observers compared to the model's handle counts after every call; non-trivial = a cross-flavour clone or conversion and a drop out of creation order; distinct = hash(config, executed call sequence)",
         _ => "",
     }
